@@ -375,6 +375,62 @@ theorem corrected_step_lower (n : Nat) (dt : α) (psd nf : Nat → α) (i : Nat)
   have h2 := limiter_right n dt psd nf i hi hdt
   nlinarith
 
+/-! ### dissolution index: which faces are "relevant" for the step limit -/
+
+theorem argmaxFirst_lt_or_zero (p : Nat → Bool) (len : Nat) :
+    (argmaxFirst p len < len ∧ p (argmaxFirst p len) = true ∧ ∀ j, j < argmaxFirst p len → p j = false) ∨
+    (argmaxFirst p len = 0 ∧ ∀ j, j < len → p j = false) := by
+  unfold argmaxFirst
+  cases h : (List.range len).find? (fun i => p i) with
+  | none =>
+    right
+    refine ⟨rfl, ?_⟩
+    intro j hj
+    have := List.find?_eq_none.mp h j (by simpa using hj)
+    simpa using this
+  | some i =>
+    left
+    have h' := List.find?_eq_some_iff_getElem.mp h
+    obtain ⟨hp, k, hk, hik, hmin⟩ := h'
+    simp only [List.getElem_range] at hik
+    subst hik
+    refine ⟨by simpa using hk, by simpa using hp, ?_⟩
+    intro j hj
+    have := hmin j hj
+    simpa using this
+
+/-- the dissolution index is at least the index of the last unstable class -/
+theorem dissolutionIndex_ge_min (n : Nat) (maxDiss : α) (vol : Nat → α) (m : Nat) :
+    m ≤ dissolutionIndex n maxDiss vol m := by
+  unfold dissolutionIndex
+  simp only
+  generalize argmaxFirst _ n = a
+  by_cases h : a < m
+  · simp [h]
+  · simp [h]; omega
+
+/-- **what is ignored by the step limit**: if the index `a` returned is above `minIndex`, then the
+classes strictly below `a` hold at most the allowed fraction `maxDissolution` of the total particle
+volume (cumulative third moment), and class `a` is the first one where that fraction is exceeded. -/
+theorem dissolutionIndex_spec (n : Nat) (maxDiss : α) (vol : Nat → α) (m : Nat)
+    (h : m < dissolutionIndex n maxDiss vol m) :
+    let a := dissolutionIndex n maxDiss vol m
+    let total := if n = 0 then 0 else cumSum vol (n-1)
+    a < n ∧ maxDiss * total < cumSum vol a ∧ ∀ j, j < a → cumSum vol j ≤ maxDiss * total := by
+  unfold dissolutionIndex at *
+  simp only at *
+  set total := (if n = 0 then (0:α) else cumSum vol (n-1)) with htot
+  set a0 := argmaxFirst (fun i => decide (maxDiss * total < cumSum vol i)) n with ha0
+  have hcase : ¬ a0 < m := by
+    intro hlt; simp [hlt] at h
+  simp only [hcase, if_false] at h ⊢
+  rcases argmaxFirst_lt_or_zero (fun i => decide (maxDiss * total < cumSum vol i)) n with ⟨h1, h2, h3⟩ | ⟨h1, _⟩
+  · refine ⟨h1, by simpa using h2, ?_⟩
+    intro j hj
+    have := h3 j hj
+    simpa using this
+  · rw [← ha0] at h1; omega
+
 /-! ### non-vacuity: concrete states meeting the hypotheses -/
 
 example : (0:ℚ) < 1 ∧ (∀ j : Nat, (0:ℚ) ≤ (fun _ => (2:ℚ)) j) := by simp
